@@ -85,6 +85,10 @@ def run(ctx):
             n_lib[0] = c10.audit(cfg, ctx.crate(cfg), "rcgen", rep)
         common.borrow_rules(rep, _lib, "C10.", "C18.lib")
         rep.floor("C18.lib", "library panic sites enumerated (%s)" % cfg, n_lib[0], 20)
+        # the tool builds its keys through rcgen's explicit-algorithm loader: its per-algorithm table (as compiled for the
+        # tool) pairs every algorithm with the back-end constant of the same curve and hash
+        import c11
+        common.borrow_rules(rep, lambda: c11.check_pairs("K1" if cfg == "K4" else "K2", ctx.crate(cfg), rep, {}), "C11.", "C18.keys")
         # panic audit of the CLI
         for cname, cr in (("rustls_cert_gen", crate), ("rustls_cert_gen", lib)):
             sites = c10.sites(cr)
